@@ -77,6 +77,7 @@ type WorkerOpts struct {
 	HashOnly  bool // determinism self-test: print "H run hash" only
 	Shard     int
 	Journal   string // confirm mode: journal every tape value to this file
+	CountOnly bool   // sensitivity experiments: print "V run fingerprint" for violating runs and go on
 }
 
 // WorkerSummary is what a worker reports when it finishes.
@@ -196,6 +197,12 @@ func Worker(o WorkerOpts) (code int) {
 			fmt.Fprintf(out, "H %d %016x %d\n", i, res.LogHash, res.Events)
 			continue
 		}
+		if o.CountOnly {
+			if res.Viol != nil {
+				fmt.Fprintf(out, "V %d %s\n", i, res.Viol.Fingerprint())
+			}
+			continue
+		}
 		if sum.FirstRun == ^uint64(0) {
 			sum.FirstRun = i
 		}
@@ -289,7 +296,7 @@ func Worker(o WorkerOpts) (code int) {
 	sort.Slice(sum.Scheds, func(i, j int) bool { return sum.Scheds[i] < sum.Scheds[j] })
 	sort.Slice(sum.States, func(i, j int) bool { return sum.States[i] < sum.States[j] })
 	sum.WallS = time.Since(start).Seconds()
-	if o.HashOnly {
+	if o.HashOnly || o.CountOnly {
 		return 0
 	}
 	b, _ := json.Marshal(&sum)
